@@ -98,12 +98,12 @@ theorem readLineStrict_flat_mono (is : List Item) (limit : Nat) :
       (readLineStrict flatSrc is limit).2.length < is.length :=
   readLineStrictLoop_flat_mono (limit + 1) is limit [] (Nat.lt_succ_self _)
 
-theorem parseHeadersLoop_flat_no_panic (fuel : Nat) : ∀ (is : List Item) (mh : Nat) (hs : Headers),
-    is.length < fuel → (parseHeadersLoop flatSrc fuel is mh hs).1 ≠ .panic := by
+theorem parseHeadersLoop_flat_no_panic (fuel : Nat) : ∀ (is : List Item) (mh cnt : Nat) (hs : Headers),
+    is.length < fuel → (parseHeadersLoop flatSrc fuel is mh cnt hs).1 ≠ .panic := by
   induction fuel with
-  | zero => intro is mh hs h; omega
+  | zero => intro is mh cnt hs h; omega
   | succ fuel ih =>
-    intro is mh hs hf
+    intro is mh cnt hs hf
     obtain ⟨h1, h2⟩ := readLineStrict_flat_mono is Consts.maxLineLen
     unfold parseHeadersLoop
     generalize readLineStrict flatSrc is Consts.maxLineLen = p at h1 h2
@@ -118,10 +118,10 @@ theorem parseHeadersLoop_flat_no_panic (fuel : Nat) : ∀ (is : List Item) (mh :
         · simp
         · split
           · simp
-          · exact ih _ _ _ (by omega)
+          · exact ih _ _ _ _ (by omega)
           · split
             · simp
-            · exact ih _ _ _ (by omega)
+            · exact ih _ _ _ _ (by omega)
     | err e => simp
     | blocked => simp
     | panic => simp at h1
@@ -145,8 +145,8 @@ theorem head_no_panic (is : List Item) (mh : Nat) : (parseResponseHead flatSrc i
       | error e => simp
       | ok st =>
         simp only
-        have := parseHeadersLoop_flat_no_panic (headFuel flatSrc is') is' mh [] (by simp [headFuel])
-        generalize parseHeadersLoop flatSrc (headFuel flatSrc is') is' mh [] = q at this
+        have := parseHeadersLoop_flat_no_panic (headFuel flatSrc is') is' mh 0 [] (by simp [headFuel])
+        generalize parseHeadersLoop flatSrc (headFuel flatSrc is') is' mh 0 [] = q at this
         obtain ⟨r2, is2⟩ := q
         cases r2 <;> simp_all
   | err e => simp
@@ -392,7 +392,7 @@ theorem full_of_lt (hs : Headers) (n : Bytes) (h : hs.length < Headers.maxSize) 
 theorem parseHeadersLoop_fields (fields : List FieldS) : ∀ (fuel : Nat) (rest : List Item) (mh : Nat)
     (acc : Headers), (∀ f ∈ fields, f.WF Consts.maxLineLen) → fields.length < fuel →
     acc.length + fields.length ≤ mh → acc.length + fields.length ≤ Headers.maxSize →
-    parseHeadersLoop flatSrc fuel (bytesI (renderFields fields ++ [13, 10]) ++ rest) mh acc =
+    parseHeadersLoop flatSrc fuel (bytesI (renderFields fields ++ [13, 10]) ++ rest) mh acc.length acc =
       (.ok (acc ++ fields.map FieldS.seen), rest) := by
   induction fields with
   | nil =>
@@ -423,14 +423,15 @@ theorem parseHeadersLoop_fields (fields : List FieldS) : ∀ (fuel : Nat) (rest 
       simp only [f.line_ne_nil, if_false, Headers.len, parseFieldLine_wf f hfw]
       rw [if_neg (by omega), full_of_lt acc _ (by omega)]
       simp only [Bool.false_eq_true, if_false, Headers.append]
-      rw [ih fuel rest mh (acc ++ [(lowerBytes f.name, f.value.map lfToSp)])
+      have hl : acc.length + 1 = (acc ++ [(lowerBytes f.name, f.value.map lfToSp)]).length := by simp
+      rw [hl, ih fuel rest mh (acc ++ [(lowerBytes f.name, f.value.map lfToSp)])
         (fun g hg => hwf g (by simp [hg])) (by omega) (by simp; omega) (by simp; omega)]
       simp [FieldS.seen_eq]
 
 theorem parseHeadersLoop_too_many (fields : List FieldS) : ∀ (fuel : Nat) (rest : List Item) (mh : Nat)
     (acc : Headers), (∀ f ∈ fields, f.WF Consts.maxLineLen) → fields.length < fuel →
     acc.length ≤ mh → mh < acc.length + fields.length → mh ≤ Headers.maxSize →
-    (parseHeadersLoop flatSrc fuel (bytesI (renderFields fields ++ [13, 10]) ++ rest) mh acc).1 =
+    (parseHeadersLoop flatSrc fuel (bytesI (renderFields fields ++ [13, 10]) ++ rest) mh acc.length acc).1 =
       .err .header := by
   induction fields with
   | nil => intro fuel rest mh acc _ _ h1 h2 _; simp at h2; omega
@@ -453,6 +454,8 @@ theorem parseHeadersLoop_too_many (fields : List FieldS) : ∀ (fuel : Nat) (res
       · rw [if_pos he]
       · rw [if_neg he, full_of_lt acc _ (by omega)]
         simp only [Bool.false_eq_true, if_false, Headers.append]
+        have hl : acc.length + 1 = (acc ++ [(lowerBytes f.name, f.value.map lfToSp)]).length := by simp
+        rw [hl]
         exact ih fuel rest mh (acc ++ [(lowerBytes f.name, f.value.map lfToSp)])
           (fun g hg => hwf g (by simp [hg])) (by omega) (by simp; omega) (by simp; omega) hcap
 
@@ -562,7 +565,8 @@ theorem head_roundtrip (h : HeadS) (hwf : h.WF Consts.maxLineLen) (rest : List I
   unfold parseResponseHead
   rw [hs, readLine_crlf_line _ _ _ (h.statusLine_no_lf hwf) hwf.2.2.2.2.2.2.2.2.1]
   simp only [parseStatusLine_wf h hwf]
-  rw [parseHeadersLoop_fields h.fields _ rest mh [] hwf.2.2.2.2.2.2.2.2.2
+  rw [show (0 : Nat) = ([] : Headers).length from rfl,
+    parseHeadersLoop_fields h.fields _ rest mh [] hwf.2.2.2.2.2.2.2.2.2
     (by have := renderFields_length h.fields; simp [headFuel]; omega) (by simpa using hmh)
     (by simpa using hcap)]
   simp [HeadS.seen]
@@ -582,7 +586,8 @@ theorem head_too_many (h : HeadS) (hwf : h.WF Consts.maxLineLen) (rest : List It
     hwf.2.2.2.2.2.2.2.2.2
     (by have := renderFields_length h.fields; simp [headFuel]; omega) (by simp)
     (by simpa using hmh) hcap
-  generalize parseHeadersLoop flatSrc _ _ mh [] = q at this
+  simp only [List.length_nil] at this
+  generalize parseHeadersLoop flatSrc _ _ mh 0 [] = q at this
   obtain ⟨r, is'⟩ := q
   simp only at this
   subst this
